@@ -613,6 +613,9 @@ func (m *Machine) Draw(t *rapid.T, g *GenOpts) Action {
 	case "rawCall":
 		m.drawRawCall(t, g, &a)
 		return a
+	case "govSubmit", "govDeposit", "govVote":
+		m.drawGov(t, g, &a)
+		return a
 	case "avsRegister", "avsUpdate", "avsDeregister", "avsOptIn", "avsOptOut", "avsBLS", "avsTask", "avsResult", "avsChallenge":
 		m.drawAvs(t, g, &a)
 		return a
